@@ -55,9 +55,18 @@
 (* deadline is D = 2.  Clock k's measurement call returns at dl[k]: 1      *)
 (* (before), 2 (at), 3 (after the deadline, ignoring ctx; during the next  *)
 (* round if that starts at once), 5 (long after: after the next round's    *)
-(* deadline) or Never (blocks until ctx.Done(), then returns an error).    *)
+(* deadline), any larger member of DVals (the LATENESS of a straggler that *)
+(* ignores its context; the configurations use 90, 7200, 259200 and        *)
+(* 3000000 units: a minute and a half, two hours, three days, five weeks   *)
+(* at the harness's one second per unit) or Never (blocks until            *)
+(* ctx.Done(), then returns an error).                                     *)
 (* Time is that of testing/synctest: it advances only when no process can  *)
-(* take a step (Tick is enabled only when ~Busy) -- "maximal progress".    *)
+(* take a step (Tick is enabled only when ~Busy) -- "maximal progress" --  *)
+(* by one unit while the caller may still start the next round (now <= D + *)
+(* MaxGap), afterwards straight to the next instant at which a measurement *)
+(* call returns (the bubble's next timer), whatever the distance.  A       *)
+(* behaviour therefore lasts until the last straggler has returned, and    *)
+(* NoLeak is about what is left then.                                      *)
 (* The statement "returns no later than the deadline" is about this        *)
 (* virtual time; without it no implementation could satisfy it.            *)
 (***************************************************************************)
@@ -76,6 +85,7 @@ D      == 2
 Never  == 9
 MaxGap == 1
 SetMax(S) == CHOOSE x \in S : \A y \in S : y <= x
+SetMin(S) == CHOOSE x \in S : \A y \in S : x <= y
 TEnd   == SetMax(DVals \cup {3})
 
 VARIABLES
@@ -353,9 +363,16 @@ Busy ==
 
 Urgent == MainNext \/ (\E k \in Clocks : SReturn(k)) \/ DrainNext \/ OldNext \/ Timer \/ Cancel \/ Fin2
 
+\* instants at which a measurement call that is still running returns
+Pending ==
+  {dl[k] : k \in {q \in Clocks : spc[q] = "measuring" /\ dl[q] # Never}}
+    \cup {osnd[x].t : x \in {y \in DOMAIN osnd : osnd[y].st = "measuring"}}
+NextInstant ==
+  IF now <= D + MaxGap THEN now + 1
+  ELSE SetMin({t \in Pending : t > now} \cup {TEnd})
 Tick ==
   /\ now < TEnd /\ ~Busy
-  /\ now' = now + 1
+  /\ now' = NextInstant
   /\ UNCHANGED <<rnd, scen, ctxDone, num, mvars, spc, dpc, dn, p2, osnd, odr, got, rt, p2phase, hvars>>
 
 Next == Urgent \/ Call2 \/ NewRound \/ Tick
